@@ -237,6 +237,13 @@ func c02Receiver(p *core.Prog, r *core.Report) {
 					if isNilRet(i) && factsAt(i.Block()).nilCmp(func(v ssa.Value) bool { return v == ssa.Value(hc) }, true) {
 						okRes = true
 					}
+					// `return r.helper()`: the helper's verdict is the reader's
+					if ret, isRet := i.(*ssa.Return); isRet {
+						rv := core.ReturnValues(ret)
+						if len(rv) > 0 && rv[len(rv)-1] == ssa.Value(hc) {
+							okRes = true
+						}
+					}
 				})
 				if by.Found || !okRes {
 					okCmp = false
